@@ -51,6 +51,7 @@ class FuncRun(ExprMixin, InstrMixin, CallMixin):
         self.facted = set()
         self.fnvals = {}
         self.closure_slots = {}
+        self.set_at_last = {}
         self.boxrefs = {}
         self.rangevis = {}
         self.escaped_closures = []
@@ -269,6 +270,17 @@ class FuncRun(ExprMixin, InstrMixin, CallMixin):
         v = self.ty.unflatten(vals, tn)
         self.assume_facts(v, tn)
         return v
+
+    def new_watermark(self):
+        """a point in allocation order: what exists now is at or below it, what this run allocates later is above"""
+        wm = T.fresh('wm')
+        if not self.mute:
+            prev = self.alloc_refs[-1] if self.alloc_refs else self.ALLOC0
+            self.hyps.append(T.le(prev, wm))
+            if not self.alloc_refs:
+                self.hyps.append(T.le(T.ZERO, self.ALLOC0))
+            self.alloc_refs.append(wm)
+        return wm
 
     def entry_refs_old(self, name, nkeys):
         """references held in the heap at entry designate objects that exist at entry: at or below the watermark
@@ -713,6 +725,7 @@ class FuncRun(ExprMixin, InstrMixin, CallMixin):
         # heap components written only at keys that are stable across iterations (terms over values the loop does
         # not change) are havoced at those keys only; everything else of the component is framed
         stable_keys = {}
+        fresh_comps = set()
         for name, ks in keys_found.items():
             if ks is None or ('heapall', None) in writes:
                 continue
@@ -730,6 +743,13 @@ class FuncRun(ExprMixin, InstrMixin, CallMixin):
                 if not ok:
                     break
                 stable.append(k)
+            if not ok and lspec is not None and 'fresh-writes' in lspec.flags:
+                # the contract says: this loop writes the component only inside objects allocated by this run (checked at
+                # the back edge): everything at or below the entry watermark is framed
+                ok = True
+                fresh_too = True
+                fresh_comps.add(name)
+                stable = [k for k in ks if k not in dry_fresh and all(T.var_serial(vn) < serial0 for vn in T.free_vars(k))]
             if ok and len(stable) <= 6:
                 stable_keys[name] = (sorted(stable, key=repr), fresh_too)
         for kr in self.key_recorders:
@@ -758,6 +778,8 @@ class FuncRun(ExprMixin, InstrMixin, CallMixin):
         # 3. havoc
         h = st.copy()
         self.apply_havoc(h, writes, 'lp', stable_keys)
+        # everything that exists at the loop head is older than what the body allocates (existing(x) in invariants)
+        self.new_watermark()
         # 4. assume invariants
         env1 = self.make_env(ctx, h, header)
         assumed = []
@@ -784,7 +806,8 @@ class FuncRun(ExprMixin, InstrMixin, CallMixin):
                 dec0 = self.eval_int(lspec.decreases.parse(), env1)
             except Unsupported as e:
                 self.elab_fail('loop %d decreases: %s' % (n, e), lspec.decreases)
-        ctx['loopinfo'][header] = {'n': n, 'lspec': lspec, 'auto': auto, 'dec0': dec0, 'fnname': fnname, 'head_state': h}
+        ctx['loopinfo'][header] = {'n': n, 'lspec': lspec, 'auto': auto, 'dec0': dec0, 'fnname': fnname, 'head_state': h,
+                                   'fresh_comps': {nm: (h.heap.get(nm), stable_keys.get(nm, ([], True))[0]) for nm in fresh_comps}}
         if lspec is not None and not self.mute:
             self.cover('loop%d-head' % n, h)
         return h
@@ -841,6 +864,18 @@ class FuncRun(ExprMixin, InstrMixin, CallMixin):
         n, lspec = info['n'], info['lspec']
         env = self.make_env(ctx, st, header)
         fnname = info['fnname']
+        for nm, (a_head, skeys) in sorted((info.get('fresh_comps') or {}).items()):
+            a_end = self.heap_get(st, nm, None)
+            if a_head is None or a_end is None or a_end == a_head:
+                continue
+            kq = T.fresh_name('k')
+            kv = T.V(kq)
+            cond = T.le(kv, self.ALLOC0)
+            for sk in skeys:
+                cond = T.and_(cond, T.ne(kv, sk))
+            self.oblige('frame', T.forall([(kq, T.INT)], T.implies(cond, T.eq(T.select(a_end, kv), T.select(a_head, kv)))), st,
+                        'loop %d (flag fresh-writes): %s is written only inside objects allocated by this run' % (n, nm), '',
+                        slug='L%d-fresh-writes-%s' % (n, re.sub(r'[^A-Za-z0-9_.]', '_', nm.rsplit('/', 1)[-1])[:40]), fnname=fnname)
         for c in (lspec.invariants if lspec else []):
             try:
                 t = self.eval_bool(c.parse(), env)
